@@ -523,17 +523,25 @@ META_C01 = {
     "note": _NOTE, "technique": _TECH,
 }
 META_C20 = {
-    "text": "Theorems (Coq, closed): the fully-valid level is raised by applyBlock only on a fully valid parent and only when "
-            "the applied-block counter equals the block's height above the root (C20_full_validity_truthful_partial); a block "
+    "text": "Theorems (Coq, closed): C20_full_validity_truthful - in every state reachable by a history of connectBlock / "
+            "setState calls (any tree, payloads, failing switches, back and forth) every block at level CAN_BE_APPLIED replays "
+            "successfully ALONE: the bodies of root..b executed from the bootstrap state all succeed (invariant over all "
+            "block-level steps; the as-coded counter check + a counting argument show that exactly root..parent is applied "
+            "when the level is raised, and success of a command group does not depend on the order of P). For ALL states, "
+            "also inside comparisons: the fully-valid level is raised only on a fully valid parent and only when the "
+            "applied-block counter equals the block's height above the root (C20_full_validity_truthful_partial); a block "
             "applied next to another chain or on a MAYBE parent is never reported fully valid by that application "
             "(C20_maybe_level_never_reported_full); unapplyBlock only runs on an applied block with applied parent and no "
-            "applied child (C20_unapply_order); a successful setState ends on a fully valid tip (C20_reactivation_partial). "
-            "_partial: the counting argument that turns the guard into 'replaying root..b alone succeeds' and hence "
-            "re-activation from every reachable state is not proved (statements kept in coq/Properties_C20.v). That part is "
-            "checked on the implementation: every block that ever reported full validity or won a setState/compare is "
-            "re-activated at random later points (histories with planted invalid payloads, candidates valid only thanks to "
-            "the competing chain, invalidate/revalidate/remove), and the model's validity levels are compared exactly.",
-    "note": _NOTE, "technique": _TECH,
+            "applied child (C20_unapply_order). _partial: truthfulness for histories that also contain comparePopScore, and "
+            "re-activation itself (setState b succeeds from every reachable state; needs FAILED_CHILD/level coherence and "
+            "Abort-freedom of the walk) are not proved (statements kept in coq/Properties_C20.v). They are checked on the "
+            "implementation: every block that ever reported full validity or won a setState/compare is re-activated at random "
+            "later points (histories with planted invalid payloads, candidates valid only thanks to the competing chain, "
+            "invalidate/revalidate/remove); the apply/unapply event trace of the real PopStateMachine (guarded hook) is checked "
+            "against the documented discipline (applied parent, tip-first unapply, unvalidated blocks unapplied before the blocks "
+            "applied earlier, first full validity only on the single applied chain); the model's validity levels are compared exactly.",
+    "note": _NOTE + " The trace part uses the guarded hook veriblock/pop/verif_hooks.hpp (popTraceHook) when the repo provides it.",
+    "technique": _TECH,
 }
 
 
